@@ -70,16 +70,17 @@ def check_C20(tier, seed):
         good = {u["gidx"] for u in units}
         cases = [c for c in cases if c[1] in good]
         crate = os.path.join(wd, "crate")
-        build.write_batch_crate(crate, [("t0", units)])
+        tn = build.unique_bin("t0")
+        build.write_batch_crate(crate, [(tn, units)])
         tgt = build.tool_vfrt("dev-hooks")
         ok, failures, proc = build.build_batch_crate(crate, tgt, build.flavor_flags("dev-hooks"))
-        if "t0" not in ok:
+        if tn not in ok:
             out.inconc("harness_build_failed")
             out.notes.append({"build": proc.stdout[-1500:]})
             return out.finish(0, 0, "harness build failed", floor=0)
         binp = os.path.join(wd, "t0.bin")
-        shutil.copy(ok["t0"], binp)
-        os.remove(ok["t0"])
+        shutil.copy(ok[tn], binp)
+        os.remove(ok[tn])
         cp = os.path.join(wd, "cases.tsv")
         write_cases(cp, cases)
         lp = os.path.join(wd, "seq.log")
